@@ -1,3 +1,939 @@
-//! C16 — bounded checks (to be written)
-use crate::ctx::Ctx;
-pub fn run(_ctx: &mut Ctx) {}
+//! C16 — evaluation computes the diagram's function and refuses cyclic diagrams.
+//!
+//! Test signature (edge label -> arity, coarity, meaning) over T = i64 with wrapping arithmetic:
+//! see `sig` / `interp`.  It contains non-commutative gates (SUB, LT, IMPLIES, MUX), a gate with two
+//! distinguishable outputs (DIVMOD), fan-out (COPY, SPLIT3), constants, DISCARD and a 0 -> 0 gate.
+//!
+//! Oracle (from the statement): a node's value is the input value written to it or the value of the
+//! hyperedge target position writing it; hyperedges are interpreted one at a time, each as soon as
+//! all writers of its source nodes are done (any such order; the pick is varied).  Values of nodes
+//! that nobody writes are not fixed by the statement: they are tracked as "undefined" and every
+//! output position depending on one is excluded from the comparison.
+//! Cyclic  <=>  the transitive closure of `depends` has a reflexive pair.
+//!
+//! Checks:
+//!   eval        : strict::eval::eval on (diagram, input vector, optional renumbering)
+//!   eval_order  : eval::verif_hooks_local::eval_order with a caller-chosen dependency-respecting grouped order
+use crate::ctx::{guard, Ctx, Rng};
+use crate::model::*;
+use open_hypergraphs::array::vec::*;
+use open_hypergraphs::finite_function::FiniteFunction;
+use open_hypergraphs::indexed_coproduct::IndexedCoproduct;
+use open_hypergraphs::semifinite::SemifiniteFunction;
+use open_hypergraphs::strict::eval::{eval, verif_hooks_local::eval_order};
+use serde_json::{json, Value};
+use std::cell::RefCell;
+use std::sync::atomic::{AtomicUsize, Ordering};
+
+/// case statistics reported in the notes: cyclic, acyclic single-writer, acyclic many-writer, with an undefined output position
+static STATS: [AtomicUsize; 4] = [AtomicUsize::new(0), AtomicUsize::new(0), AtomicUsize::new(0), AtomicUsize::new(0)];
+
+type T = i64;
+type Check = fn(&mut Ctx, &Value);
+const CHECKS: &[(&str, Check)] = &[("eval", chk_eval), ("eval_order", chk_eval_order)];
+
+// ------------------------------------------------------------------------------------------------
+// test signature
+// ------------------------------------------------------------------------------------------------
+const ADD: u8 = 0;
+const SUB: u8 = 1;
+const MUL: u8 = 2;
+const NEG: u8 = 3;
+const COPY: u8 = 4;
+const DISCARD: u8 = 5;
+const ONE: u8 = 6;
+const SEVEN: u8 = 7;
+const AND: u8 = 8;
+const OR: u8 = 9;
+const NOT: u8 = 10;
+const XOR: u8 = 11;
+const DIVMOD: u8 = 12;
+const MUX: u8 = 13;
+const NOP: u8 = 14;
+const LT: u8 = 15;
+const SPLIT3: u8 = 16;
+const IMPLIES: u8 = 17;
+const NLABELS: usize = 18;
+
+fn sig(l: u8) -> Option<(usize, usize)> {
+    Some(match l {
+        ADD | SUB | MUL | AND | OR | XOR | LT | IMPLIES => (2, 1),
+        NEG | NOT => (1, 1),
+        COPY => (1, 2),
+        DISCARD => (1, 0),
+        ONE | SEVEN => (0, 1),
+        DIVMOD => (2, 2),
+        MUX => (3, 1),
+        NOP => (0, 0),
+        SPLIT3 => (1, 3),
+        _ => return None,
+    })
+}
+
+fn interp(l: u8, a: &[T]) -> Vec<T> {
+    let (ar, _) = sig(l).expect("label outside the test signature");
+    assert_eq!(a.len(), ar, "interpreter: operation {} applied to {} arguments", l, a.len());
+    let b = |v: T| v != 0;
+    match l {
+        ADD => vec![a[0].wrapping_add(a[1])],
+        SUB => vec![a[0].wrapping_sub(a[1])],
+        MUL => vec![a[0].wrapping_mul(a[1])],
+        NEG => vec![a[0].wrapping_neg()],
+        COPY => vec![a[0], a[0]],
+        DISCARD => vec![],
+        ONE => vec![1],
+        SEVEN => vec![7],
+        AND => vec![(b(a[0]) && b(a[1])) as T],
+        OR => vec![(b(a[0]) || b(a[1])) as T],
+        NOT => vec![(!b(a[0])) as T],
+        XOR => vec![(b(a[0]) != b(a[1])) as T],
+        DIVMOD => {
+            if a[1] == 0 {
+                vec![0, a[0]]
+            } else {
+                vec![a[0].wrapping_div(a[1]), a[0].wrapping_rem(a[1])]
+            }
+        }
+        MUX => vec![if b(a[0]) { a[1] } else { a[2] }],
+        NOP => vec![],
+        LT => vec![(a[0] < a[1]) as T],
+        SPLIT3 => vec![a[0], a[0].wrapping_add(1), a[0].wrapping_mul(2)],
+        IMPLIES => vec![(!b(a[0]) || b(a[1])) as T],
+        _ => unreachable!(),
+    }
+}
+
+fn conforms(m: &M) -> bool {
+    (0..m.x.len()).all(|e| sig(m.x[e]) == Some((m.src[e].len(), m.tgt[e].len())))
+}
+
+// ------------------------------------------------------------------------------------------------
+// oracle
+// ------------------------------------------------------------------------------------------------
+fn dep_matrix(m: &M) -> Vec<Vec<bool>> {
+    let k = m.x.len();
+    let mut d = vec![vec![false; k]; k];
+    for x in 0..k {
+        for y in 0..k {
+            d[x][y] = m.tgt[x].iter().any(|a| m.src[y].contains(a));
+        }
+    }
+    d
+}
+
+fn cyclic(d: &Vec<Vec<bool>>) -> bool {
+    let k = d.len();
+    let mut r = d.clone();
+    for via in 0..k {
+        for a in 0..k {
+            if r[a][via] {
+                for b in 0..k {
+                    if r[via][b] {
+                        r[a][b] = true;
+                    }
+                }
+            }
+        }
+    }
+    (0..k).any(|x| r[x][x])
+}
+
+/// every node is written at most once, by one hyperedge target position or one input position
+fn single_writer(m: &M) -> bool {
+    let mut c = vec![0usize; m.w.len()];
+    for &v in m.tgt.iter().flatten().chain(m.s.iter()) {
+        c[v] += 1;
+    }
+    c.iter().all(|&q| q <= 1)
+}
+
+/// node values by the definition; `pick` varies which ready hyperedge is interpreted next.
+/// None = undefined (node never written, or computed from an undefined value).  Requires acyclic + single writer.
+fn oracle_nodes(m: &M, inputs: &[T], pick: usize) -> Vec<Option<T>> {
+    let (n, k) = (m.w.len(), m.x.len());
+    let mut val: Vec<Option<T>> = vec![None; n];
+    for (i, &v) in m.s.iter().enumerate() {
+        val[v] = Some(inputs[i]);
+    }
+    let mut done = vec![false; k];
+    let mut step = 0usize;
+    loop {
+        let ready: Vec<usize> = (0..k)
+            .filter(|&e| !done[e] && m.src[e].iter().all(|v| (0..k).all(|f| done[f] || !m.tgt[f].contains(v))))
+            .collect();
+        if ready.is_empty() {
+            break;
+        }
+        let e = match pick % 3 {
+            0 => ready[0],
+            1 => ready[ready.len() - 1],
+            _ => ready[(pick / 3 + step * 7) % ready.len()],
+        };
+        step += 1;
+        let args: Option<Vec<T>> = m.src[e].iter().map(|&v| val[v]).collect();
+        match args {
+            Some(a) => {
+                let out = interp(m.x[e], &a);
+                for (j, &v) in m.tgt[e].iter().enumerate() {
+                    val[v] = Some(out[j]);
+                }
+            }
+            None => {
+                for &v in &m.tgt[e] {
+                    val[v] = None;
+                }
+            }
+        }
+        done[e] = true;
+    }
+    assert!(done.iter().all(|&b| b), "oracle called on a cyclic diagram");
+    val
+}
+
+fn show(v: &[Option<T>]) -> Value {
+    json!(v.iter().map(|x| match x {
+        Some(q) => json!(q),
+        None => json!("undefined"),
+    })
+    .collect::<Vec<_>>())
+}
+
+fn agrees(got: &[T], exp: &[Option<T>]) -> bool {
+    got.len() == exp.len() && got.iter().zip(exp.iter()).all(|(g, e)| e.map(|q| q == *g).unwrap_or(true))
+}
+
+// ------------------------------------------------------------------------------------------------
+// library calls
+// ------------------------------------------------------------------------------------------------
+type SFT = SemifiniteFunction<VecKind, T>;
+type ICT = IndexedCoproduct<VecKind, SFT>;
+
+fn apply_counting(calls: &RefCell<Vec<usize>>, ops: SemifiniteFunction<VecKind, u8>, args: ICT) -> ICT {
+    let args: Vec<SFT> = args.into_iter().collect();
+    assert_eq!(ops.0.len(), args.len(), "interpreter: {} operations but {} argument lists", ops.0.len(), args.len());
+    let mut sizes = vec![];
+    let mut flat = vec![];
+    for (op, a) in ops.0.iter().zip(args.iter()) {
+        calls.borrow_mut()[*op as usize] += 1;
+        let out = interp(*op, &a.0);
+        sizes.push(out.len());
+        flat.extend(out);
+    }
+    IndexedCoproduct::from_semifinite(SemifiniteFunction(VecArray(sizes)), SemifiniteFunction(VecArray(flat))).expect("interpreter output")
+}
+
+/// (result or panic message, number of interpretations per label)
+fn run_eval(m: &M, inputs: &[T]) -> (Result<Option<Vec<T>>, String>, Vec<usize>) {
+    let f = m.to_strict();
+    let calls = RefCell::new(vec![0usize; NLABELS]);
+    let r = guard(|| eval::<VecKind, u8, u8, T>(&f, VecArray(inputs.to_vec()), |o, a| apply_counting(&calls, o, a)).map(|v| v.0));
+    (r, calls.into_inner())
+}
+
+fn label_counts(m: &M) -> Vec<usize> {
+    let mut c = vec![0usize; NLABELS];
+    for &l in &m.x {
+        c[l as usize] += 1;
+    }
+    c
+}
+
+fn res_json(r: &Result<Option<Vec<T>>, String>) -> Value {
+    match r {
+        Err(p) => json!(format!("panic: {}", p)),
+        Ok(None) => json!("None"),
+        Ok(Some(v)) => json!({ "Some": v }),
+    }
+}
+
+// ------------------------------------------------------------------------------------------------
+// json helpers
+// ------------------------------------------------------------------------------------------------
+fn ints(v: &Value) -> Option<Vec<T>> {
+    v.as_array()?.iter().map(|x| x.as_i64()).collect()
+}
+fn usizes(v: &Value) -> Option<Vec<usize>> {
+    v.as_array()?.iter().map(|x| x.as_u64().map(|y| y as usize)).collect()
+}
+fn is_perm(p: &[usize], n: usize) -> bool {
+    let mut seen = vec![false; n];
+    p.len() == n && p.iter().all(|&v| v < n && !std::mem::replace(&mut seen[v], true))
+}
+
+fn renumber(m: &M, pn: &[usize], pe: &[usize]) -> M {
+    let (n, k) = (m.w.len(), m.x.len());
+    let mut w = vec![0u8; n];
+    for v in 0..n {
+        w[pn[v]] = m.w[v];
+    }
+    let mut x = vec![0u8; k];
+    let mut src = vec![vec![]; k];
+    let mut tgt = vec![vec![]; k];
+    let mp = |l: &Vec<usize>| l.iter().map(|&v| pn[v]).collect::<Vec<_>>();
+    for e in 0..k {
+        x[pe[e]] = m.x[e];
+        src[pe[e]] = mp(&m.src[e]);
+        tgt[pe[e]] = mp(&m.tgt[e]);
+    }
+    M { w, x, src, tgt, s: mp(&m.s), t: mp(&m.t) }
+}
+
+// ------------------------------------------------------------------------------------------------
+// checks
+// ------------------------------------------------------------------------------------------------
+/// input: {"m": model (edge labels from the test signature), "inputs": [i64; |s|], "pn": node permutation | null, "pe": edge permutation | null}
+fn chk_eval(ctx: &mut Ctx, input: &Value) {
+    let m = match M::from_json(&input["m"]) {
+        Some(m) if m.valid() && conforms(&m) => m,
+        _ => return,
+    };
+    let inputs = match ints(&input["inputs"]) {
+        Some(i) if i.len() == m.s.len() => i,
+        _ => return,
+    };
+    let perm = match (usizes(&input["pn"]), usizes(&input["pe"])) {
+        (Some(pn), Some(pe)) if is_perm(&pn, m.w.len()) && is_perm(&pe, m.x.len()) => Some((pn, pe)),
+        _ => None,
+    };
+    let d = dep_matrix(&m);
+    let cyc = cyclic(&d);
+    let sw = single_writer(&m);
+    ctx.case("eval", input, m.x.len() >= 2 && d.iter().flatten().any(|&b| b));
+
+    STATS[if cyc { 0 } else if sw { 1 } else { 2 }].fetch_add(1, Ordering::Relaxed);
+    let (r, calls) = run_eval(&m, &inputs);
+    let mut expected: Option<Vec<Option<T>>> = None;
+    if cyc {
+        if r != Ok(None) {
+            ctx.fail("eval", "C16.refuses-cyclic", input, res_json(&r), json!("None (dependency cycle)"));
+        }
+    } else {
+        match &r {
+            Err(_) => ctx.fail("eval", "C16.returns-result-when-acyclic", input, res_json(&r), json!("Some(values)")),
+            Ok(None) => ctx.fail("eval", "C16.returns-result-when-acyclic", input, res_json(&r), json!("Some(values): no dependency cycle")),
+            Ok(Some(out)) => {
+                if out.len() != m.t.len() {
+                    ctx.fail("eval", "C16.output-arity", input, res_json(&r), json!(m.t.len()));
+                } else if sw {
+                    let nodes = oracle_nodes(&m, &inputs, 0);
+                    let exp: Vec<Option<T>> = m.t.iter().map(|&v| nodes[v]).collect();
+                    if exp.iter().any(|e| e.is_none()) {
+                        STATS[3].fetch_add(1, Ordering::Relaxed);
+                    }
+                    if !agrees(out, &exp) {
+                        ctx.fail("eval", "C16.values", input, res_json(&r), show(&exp));
+                    }
+                    if calls != label_counts(&m) {
+                        ctx.fail("eval", "C16.each-hyperedge-interpreted-once", input, json!({"interpretations_per_label": calls}), json!({"edges_per_label": label_counts(&m)}));
+                    }
+                    expected = Some(exp);
+                }
+            }
+        }
+    }
+    // the same diagram under another numbering of nodes and hyperedges
+    if let Some((pn, pe)) = perm {
+        let m2 = renumber(&m, &pn, &pe);
+        let (r2, _) = run_eval(&m2, &inputs);
+        if cyc {
+            if r2 != Ok(None) {
+                ctx.fail("eval", "C16.refuses-cyclic", input, json!({"renumbered": res_json(&r2)}), json!("None (dependency cycle)"));
+            }
+        } else {
+            match (&r2, &expected) {
+                (Ok(Some(out2)), Some(exp)) => {
+                    // oracle self-check: another interpretation order on the renumbered diagram gives the same function
+                    let nodes2 = oracle_nodes(&m2, &inputs, 1 + pn.len() + 3 * pe.iter().sum::<usize>());
+                    let exp2: Vec<Option<T>> = m2.t.iter().map(|&v| nodes2[v]).collect();
+                    if &exp2 != exp {
+                        ctx.fail("eval", "C16.ORACLE-SELF-CHECK", input, show(&exp2), show(exp));
+                    }
+                    if !agrees(out2, exp) {
+                        ctx.fail("eval", "C16.numbering-invariant", input, json!({"original": res_json(&r), "renumbered": res_json(&r2)}), show(exp));
+                    }
+                }
+                (Ok(Some(out2)), None) => {
+                    if out2.len() != m.t.len() {
+                        ctx.fail("eval", "C16.output-arity", input, json!({"renumbered": res_json(&r2)}), json!(m.t.len()));
+                    }
+                }
+                _ => ctx.fail("eval", "C16.returns-result-when-acyclic", input, json!({"renumbered": res_json(&r2)}), json!("Some(values)")),
+            }
+        }
+    }
+}
+
+/// input: {"m": model, "inputs": [...], "order": [[edge, ...], ...]} — a grouped order chosen by the caller
+fn chk_eval_order(ctx: &mut Ctx, input: &Value) {
+    let m = match M::from_json(&input["m"]) {
+        Some(m) if m.valid() && conforms(&m) => m,
+        _ => return,
+    };
+    let inputs = match ints(&input["inputs"]) {
+        Some(i) if i.len() == m.s.len() => i,
+        _ => return,
+    };
+    let order: Vec<Vec<usize>> = match input["order"].as_array().and_then(|a| a.iter().map(usizes).collect::<Option<Vec<_>>>()) {
+        Some(o) => o,
+        None => return,
+    };
+    let k = m.x.len();
+    let d = dep_matrix(&m);
+    if cyclic(&d) || !single_writer(&m) {
+        return;
+    }
+    // the order must list every hyperedge once and respect dependencies (group index strictly increases along a dependency)
+    let mut grp = vec![usize::MAX; k];
+    for (g, l) in order.iter().enumerate() {
+        for &e in l {
+            if e >= k || grp[e] != usize::MAX {
+                return;
+            }
+            grp[e] = g;
+        }
+    }
+    if grp.iter().any(|&g| g == usize::MAX) {
+        return;
+    }
+    for x in 0..k {
+        for y in 0..k {
+            if d[x][y] && grp[x] >= grp[y] {
+                return;
+            }
+        }
+    }
+    ctx.case("eval_order", input, k >= 2 && d.iter().flatten().any(|&b| b));
+    let f = m.to_strict();
+    let calls = RefCell::new(vec![0usize; NLABELS]);
+    let ord: Vec<FiniteFunction<VecKind>> = order.iter().map(|l| FiniteFunction::new(VecArray(l.clone()), k).unwrap()).collect();
+    let r = guard(|| eval_order::<VecKind, u8, u8, T>(&f, VecArray(inputs.clone()), ord, |o, a| apply_counting(&calls, o, a)));
+    let nodes = oracle_nodes(&m, &inputs, 2 + k);
+    let exp: Vec<Option<T>> = m.t.iter().map(|&v| nodes[v]).collect();
+    match r {
+        Err(p) => ctx.fail("eval_order", "C16.order.returns", input, json!(format!("panic: {}", p)), show(&exp)),
+        Ok((mem, out)) => {
+            if !agrees(&out.0, &exp) {
+                ctx.fail("eval_order", "C16.order.values", input, json!(out.0), show(&exp));
+            }
+            if !agrees(&mem.0, &nodes) {
+                ctx.fail("eval_order", "C16.order.node-values", input, json!(mem.0), show(&nodes));
+            }
+            if calls.into_inner() != label_counts(&m) {
+                ctx.fail("eval_order", "C16.each-hyperedge-interpreted-once", input, json!("interpretation counts differ"), json!({"edges_per_label": label_counts(&m)}));
+            }
+        }
+    }
+}
+
+// ------------------------------------------------------------------------------------------------
+// generators
+// ------------------------------------------------------------------------------------------------
+fn shuffle(r: &mut Rng, n: usize) -> Vec<usize> {
+    let mut p: Vec<usize> = (0..n).collect();
+    for i in (1..n).rev() {
+        let j = r.below(i + 1);
+        p.swap(i, j);
+    }
+    p
+}
+
+fn rand_value(r: &mut Rng) -> T {
+    match r.below(10) {
+        0 => 0,
+        1 => 1,
+        2 => -1,
+        3 => (r.below(2000) as T) - 1000,
+        4 => i64::MAX - r.below(3) as T,
+        5 => i64::MIN + r.below(3) as T,
+        _ => (r.below(19) as T) - 9,
+    }
+}
+
+fn rand_inputs(r: &mut Rng, n: usize) -> Vec<T> {
+    (0..n).map(|_| rand_value(r)).collect()
+}
+
+/// incremental circuit builder: every node written at most once, acyclic by construction
+struct B {
+    m: M,
+}
+impl B {
+    fn new(ninputs: usize) -> B {
+        B { m: M { w: vec![0; ninputs], x: vec![], src: vec![], tgt: vec![], s: (0..ninputs).collect(), t: vec![] } }
+    }
+    fn node(&mut self) -> usize {
+        self.m.w.push((self.m.w.len() % 2) as u8);
+        self.m.w.len() - 1
+    }
+    /// add an operation reading `src`; returns its fresh target nodes
+    fn op(&mut self, l: u8, src: &[usize]) -> Vec<usize> {
+        let (a, c) = sig(l).unwrap();
+        assert_eq!(a, src.len());
+        let t: Vec<usize> = (0..c).map(|_| self.node()).collect();
+        self.m.x.push(l);
+        self.m.src.push(src.to_vec());
+        self.m.tgt.push(t.clone());
+        t
+    }
+}
+
+const WEIGHTED: &[u8] = &[
+    ADD, SUB, SUB, MUL, NEG, NEG, COPY, COPY, DISCARD, ONE, SEVEN, AND, OR, NOT, XOR, DIVMOD, DIVMOD, MUX, NOP, LT, SPLIT3, IMPLIES, SUB, NEG,
+];
+
+/// random single-writer acyclic circuit (built in dependency order; the caller scrambles the numbering)
+fn random_circuit(r: &mut Rng, max_inputs: usize, max_ops: usize) -> M {
+    let ni = r.range(0, max_inputs);
+    let k = r.range(0, max_ops);
+    let mut b = B::new(ni);
+    let mode = r.below(4); // 0 uniform, 1 recent (deep), 2 early (wide, shared), 3 mixed
+    if r.chance(1, 6) {
+        b.node(); // a node nobody writes
+    }
+    for _ in 0..k {
+        let n = b.m.w.len();
+        let mut l = WEIGHTED[r.below(WEIGHTED.len())];
+        if n == 0 && sig(l).unwrap().0 > 0 {
+            l = if r.chance(1, 2) { SEVEN } else { ONE };
+        }
+        let (a, _) = sig(l).unwrap();
+        let mut src = vec![];
+        for j in 0..a {
+            let v = if j > 0 && r.chance(1, 6) {
+                src[0] // same node twice
+            } else {
+                match if mode == 3 { r.below(3) } else { mode } {
+                    1 => n - 1 - r.below(n.min(3)),
+                    2 => r.below(n.min(4)),
+                    _ => r.below(n),
+                }
+            };
+            src.push(v);
+        }
+        b.op(l, &src);
+    }
+    let n = b.m.w.len();
+    if n > 0 {
+        let lt = r.range(0, 5);
+        b.m.t = (0..lt).map(|_| if r.chance(1, 2) { n - 1 - r.below(n.min(4)) } else { r.below(n) }).collect();
+        if r.chance(1, 4) {
+            b.m.t = (0..n).collect();
+        }
+    }
+    b.m
+}
+
+/// rewire one source position to a target of the same or another operation until the diagram is cyclic
+fn make_cyclic(r: &mut Rng, m: &M) -> Option<M> {
+    let k = m.x.len();
+    let readers: Vec<usize> = (0..k).filter(|&e| !m.src[e].is_empty()).collect();
+    let writers: Vec<usize> = (0..k).filter(|&e| !m.tgt[e].is_empty()).collect();
+    if readers.is_empty() || writers.is_empty() {
+        return None;
+    }
+    for _ in 0..30 {
+        let mut c = m.clone();
+        let e = readers[r.below(readers.len())];
+        let f = writers[r.below(writers.len())];
+        let j = r.below(c.src[e].len());
+        c.src[e][j] = c.tgt[f][r.below(c.tgt[f].len())];
+        if cyclic(&dep_matrix(&c)) {
+            return Some(c);
+        }
+    }
+    None
+}
+
+/// add a disjoint 2-cycle (NEG <-> NOT) or a self-dependent gate that feeds nothing
+fn add_detached_cycle(r: &mut Rng, m: &M) -> M {
+    let mut c = m.clone();
+    let a = c.w.len();
+    if r.chance(1, 2) {
+        c.w.extend([0, 0]);
+        c.x.extend([NEG, NOT]);
+        c.src.extend([vec![a], vec![a + 1]]);
+        c.tgt.extend([vec![a + 1], vec![a]]);
+    } else {
+        c.w.push(0);
+        c.x.push(NEG);
+        c.src.push(vec![a]);
+        c.tgt.push(vec![a]);
+    }
+    c
+}
+
+/// arbitrary signature-conforming diagram: nodes may be written many times, cycles likely
+fn random_conforming(r: &mut Rng, max_nodes: usize, max_ops: usize) -> M {
+    let n = r.range(1, max_nodes);
+    let k = r.range(0, max_ops);
+    let mut m = M { w: vec![0; n], x: vec![], src: vec![], tgt: vec![], s: vec![], t: vec![] };
+    for _ in 0..k {
+        let l = WEIGHTED[r.below(WEIGHTED.len())];
+        let (a, c) = sig(l).unwrap();
+        m.x.push(l);
+        m.src.push(r.vec_below(a, n));
+        m.tgt.push(r.vec_below(c, n));
+    }
+    let (ls, lt) = (r.below(4), r.below(4));
+    m.s = r.vec_below(ls, n);
+    m.t = r.vec_below(lt, n);
+    m
+}
+
+fn case(ctx: &mut Ctx, m: &M, inputs: &[T], perm: Option<(Vec<usize>, Vec<usize>)>) {
+    let v = match perm {
+        Some((pn, pe)) => json!({"m": m.json(), "inputs": inputs, "pn": pn, "pe": pe}),
+        None => json!({"m": m.json(), "inputs": inputs, "pn": Value::Null, "pe": Value::Null}),
+    };
+    chk_eval(ctx, &v);
+}
+
+/// run a diagram: scrambled base numbering, a second renumbering, `nvec` input vectors
+fn case_scrambled(ctx: &mut Ctx, m: &M, nvec: usize) {
+    let (pn0, pe0) = (shuffle(&mut ctx.rng, m.w.len()), shuffle(&mut ctx.rng, m.x.len()));
+    let base = renumber(m, &pn0, &pe0);
+    for _ in 0..nvec {
+        let inputs = rand_inputs(&mut ctx.rng, m.s.len());
+        let perm = (shuffle(&mut ctx.rng, m.w.len()), shuffle(&mut ctx.rng, m.x.len()));
+        case(ctx, &base, &inputs, Some(perm));
+    }
+}
+
+/// eval_order with (a) singleton groups in a random dependency-respecting order, (b) groups by longest-chain depth
+fn case_orders(ctx: &mut Ctx, m: &M) {
+    let k = m.x.len();
+    let d = dep_matrix(m);
+    if cyclic(&d) || !single_writer(m) {
+        return;
+    }
+    let inputs = rand_inputs(&mut ctx.rng, m.s.len());
+    // (a) random linear extension, each hyperedge its own group, with a few empty groups thrown in
+    let mut done = vec![false; k];
+    let mut order: Vec<Vec<usize>> = vec![];
+    for _ in 0..k {
+        let ready: Vec<usize> = (0..k).filter(|&e| !done[e] && (0..k).all(|f| done[f] || !d[f][e])).collect();
+        let e = ready[ctx.rng.below(ready.len())];
+        done[e] = true;
+        order.push(vec![e]);
+        if ctx.rng.chance(1, 5) {
+            order.push(vec![]);
+        }
+    }
+    chk_eval_order(ctx, &json!({"m": m.json(), "inputs": inputs, "order": order}));
+    // (b) grouped by depth, group members in reverse numbering
+    let mut depth = vec![0usize; k];
+    for _ in 0..=k {
+        for x in 0..k {
+            for y in 0..k {
+                if d[x][y] && depth[y] < depth[x] + 1 {
+                    depth[y] = depth[x] + 1;
+                }
+            }
+        }
+    }
+    let nl = depth.iter().max().map(|&q| q + 1).unwrap_or(0);
+    let groups: Vec<Vec<usize>> = (0..nl).map(|l| (0..k).rev().filter(|&e| depth[e] == l).collect()).collect();
+    chk_eval_order(ctx, &json!({"m": m.json(), "inputs": inputs, "order": groups}));
+}
+
+fn corner_circuits() -> Vec<M> {
+    let mut out = vec![];
+    // no nodes at all; wiring only (permuted, duplicated, dropped inputs)
+    out.push(M::empty());
+    out.push(M { w: vec![0, 0, 0], x: vec![], src: vec![], tgt: vec![], s: vec![0, 1, 2], t: vec![2, 0, 0, 1] });
+    out.push(M { w: vec![0, 0, 0], x: vec![], src: vec![], tgt: vec![], s: vec![2, 0], t: vec![0, 2, 2] });
+    // x^2, 1+1
+    {
+        let mut b = B::new(1);
+        let c = b.op(COPY, &[0]);
+        let p = b.op(MUL, &[c[0], c[1]]);
+        b.m.t = p;
+        out.push(b.m);
+        let mut b = B::new(0);
+        let a = b.op(ONE, &[]);
+        let c = b.op(ONE, &[]);
+        let p = b.op(ADD, &[a[0], c[0]]);
+        b.m.t = p;
+        out.push(b.m);
+    }
+    // inputs of one gate arriving from different depths: x - NEG^d(y) (both argument positions)
+    for dpt in [1usize, 2, 3, 8, 33, 64] {
+        for flip in [false, true] {
+            let mut b = B::new(2);
+            let mut cur = 1;
+            for i in 0..dpt {
+                cur = b.op(if i % 3 == 2 { NOT } else { NEG }, &[cur])[0];
+            }
+            // the shallow argument is an input (flip) or a depth-1 gate (both producers are gates at different depths)
+            let sh = if flip { 0 } else { b.op(NEG, &[0])[0] };
+            let o = if flip { b.op(SUB, &[cur, sh]) } else { b.op(SUB, &[sh, cur]) };
+            let o2 = b.op(LT, &[1, o[0]]);
+            b.m.t = vec![o[0], o2[0], cur, 0];
+            out.push(b.m);
+        }
+    }
+    // fan-out through one shared node: read by five gates, twice by one of them, and output three times
+    {
+        let mut b = B::new(2);
+        let a = b.op(NEG, &[0]);
+        let c = b.op(SUB, &[0, 1]);
+        let e = b.op(SUB, &[1, 0]);
+        let f = b.op(MUL, &[0, 0]);
+        let g = b.op(MUX, &[0, a[0], c[0]]);
+        b.op(DISCARD, &[0]);
+        b.m.t = vec![0, g[0], 0, f[0], e[0], 0, c[0]];
+        out.push(b.m);
+    }
+    // two distinguishable outputs consumed crosswise
+    {
+        let mut b = B::new(2);
+        let qr = b.op(DIVMOD, &[0, 1]);
+        let z = b.op(SUB, &[qr[1], qr[0]]);
+        let s3 = b.op(SPLIT3, &[z[0]]);
+        let y = b.op(DIVMOD, &[s3[2], s3[1]]);
+        b.m.t = vec![y[1], y[0], s3[0], qr[0], qr[1]];
+        out.push(b.m);
+    }
+    // zero-arity / zero-coarity gates mixed with a chain; gate whose result nobody reads
+    {
+        let mut b = B::new(1);
+        b.op(NOP, &[]);
+        let c = b.op(SEVEN, &[]);
+        b.op(NOP, &[]);
+        let a = b.op(SUB, &[c[0], 0]);
+        b.op(DISCARD, &[a[0]]);
+        b.op(NEG, &[a[0]]);
+        let n = b.op(NOT, &[a[0]]);
+        b.m.t = vec![n[0], a[0], c[0]];
+        out.push(b.m);
+        out.push(M { w: vec![], x: vec![NOP, NOP, NOP], src: vec![vec![]; 3], tgt: vec![vec![]; 3], s: vec![], t: vec![] });
+    }
+    // wide layer: 40 independent gates, then a reduction tree with SUB (order-sensitive)
+    {
+        let mut b = B::new(40);
+        let mut cur: Vec<usize> = (0..40).map(|i| b.op(if i % 2 == 0 { NEG } else { NOT }, &[i])[0]).collect();
+        while cur.len() > 1 {
+            let mut nxt = vec![];
+            for p in cur.chunks(2) {
+                if p.len() == 2 {
+                    nxt.push(b.op(SUB, &[p[0], p[1]])[0]);
+                } else {
+                    nxt.push(p[0]);
+                }
+            }
+            cur = nxt;
+        }
+        b.m.t = cur;
+        out.push(b.m);
+    }
+    // input node that nobody reads, output straight from an input, node nobody writes feeding one output only
+    {
+        let mut b = B::new(3);
+        let u = b.node();
+        let a = b.op(ADD, &[0, 2]);
+        let bad = b.op(SUB, &[a[0], u]);
+        b.m.t = vec![1, a[0], bad[0], u, 2];
+        out.push(b.m);
+    }
+    out
+}
+
+fn corner_cyclic() -> Vec<M> {
+    let mut out = vec![];
+    // self-dependent gate on the path to the output
+    out.push(M { w: vec![0, 0], x: vec![ADD], src: vec![vec![0, 1]], tgt: vec![vec![1]], s: vec![0], t: vec![1] });
+    // self-dependent gate, output does not depend on it
+    out.push(M { w: vec![0, 0], x: vec![NEG], src: vec![vec![1]], tgt: vec![vec![1]], s: vec![0], t: vec![0] });
+    // 2-cycle, 3-cycle
+    out.push(M { w: vec![0, 0], x: vec![NEG, NOT], src: vec![vec![0], vec![1]], tgt: vec![vec![1], vec![0]], s: vec![], t: vec![1] });
+    out.push(M { w: vec![0, 0, 0], x: vec![NEG, NOT, NEG], src: vec![vec![0], vec![1], vec![2]], tgt: vec![vec![1], vec![2], vec![0]], s: vec![], t: vec![] });
+    // head -> cycle -> tail -> output
+    out.push(M {
+        w: vec![0; 6],
+        x: vec![NEG, ADD, COPY, NOT],
+        src: vec![vec![0], vec![1, 3], vec![2], vec![4]],
+        tgt: vec![vec![1], vec![2], vec![3, 4], vec![5]],
+        s: vec![0],
+        t: vec![5],
+    });
+    // acyclic circuit computing the outputs, cycle only feeding a DISCARD
+    out.push(M {
+        w: vec![0; 5],
+        x: vec![NEG, SUB, NEG, DISCARD],
+        src: vec![vec![0], vec![1, 0], vec![3], vec![3]],
+        tgt: vec![vec![1], vec![2], vec![3], vec![]],
+        s: vec![0],
+        t: vec![2],
+    });
+    // cycle through a node that is also an input (written three times) and with repeated nodes
+    out.push(M { w: vec![0, 0], x: vec![ADD, COPY], src: vec![vec![0, 0], vec![1]], tgt: vec![vec![1], vec![0, 0]], s: vec![0], t: vec![1] });
+    // 40-chain with a back reference in the middle
+    {
+        let k = 40;
+        let mut m = M { w: vec![0; k + 1], x: vec![NEG; k], src: (0..k).map(|i| vec![i]).collect(), tgt: (0..k).map(|i| vec![i + 1]).collect(), s: vec![0], t: vec![k] };
+        m.x[20] = ADD;
+        m.src[20] = vec![20, 30];
+        out.push(m);
+    }
+    out
+}
+
+fn all_perms(n: usize) -> Vec<Vec<usize>> {
+    fn rec(cur: &mut Vec<usize>, used: &mut Vec<bool>, n: usize, out: &mut Vec<Vec<usize>>) {
+        if cur.len() == n {
+            out.push(cur.clone());
+            return;
+        }
+        for v in 0..n {
+            if !used[v] {
+                used[v] = true;
+                cur.push(v);
+                rec(cur, used, n, out);
+                cur.pop();
+                used[v] = false;
+            }
+        }
+    }
+    let mut out = vec![];
+    rec(&mut vec![], &mut vec![false; n], n, &mut out);
+    out
+}
+
+pub fn run(ctx: &mut Ctx) {
+    if let Some((name, input)) = ctx.replay.clone() {
+        for (n, c) in CHECKS {
+            if *n == name {
+                c(ctx, &input);
+            }
+        }
+        return;
+    }
+    // (a) corners: as written, scrambled + renumbered with several input vectors, and under caller-chosen orders
+    for m in corner_circuits() {
+        let inputs: Vec<T> = (0..m.s.len()).map(|i| [5, 3, -4, 11, 2][i % 5] + (i / 5) as T).collect();
+        case(ctx, &m, &inputs, None);
+        case_scrambled(ctx, &m, 4);
+        case_orders(ctx, &m);
+        // the same circuit with a dependency cycle that the outputs do not depend on
+        let c = add_detached_cycle(&mut ctx.rng, &m);
+        case_scrambled(ctx, &c, 1);
+    }
+    for m in corner_cyclic() {
+        let inputs: Vec<T> = (0..m.s.len()).map(|i| 3 + i as T).collect();
+        case(ctx, &m, &inputs, None);
+        case_scrambled(ctx, &m, 2);
+    }
+    // all numberings of one small diagram with inputs from different depths, a shared node and a two-output gate
+    {
+        let mut b = B::new(1);
+        let c = b.op(SEVEN, &[]);
+        let q = b.op(DIVMOD, &[c[0], 0]);
+        let z = b.op(SUB, &[0, q[1]]);
+        b.m.t = vec![z[0], q[0], 0];
+        let m = b.m; // 5 nodes, 3 edges
+        let pes = all_perms(m.x.len());
+        let pns = all_perms(m.w.len());
+        let stride = if ctx.thorough() { 1 } else { 7 };
+        let mut i = 0;
+        for pe in &pes {
+            for pn in &pns {
+                i += 1;
+                if i % stride == 0 {
+                    case(ctx, &m, &[3], Some((pn.clone(), pe.clone())));
+                }
+            }
+        }
+    }
+
+    // (b) exhaustive: k gates from {SUB, NEG, COPY, SEVEN, DISCARD}, ni inputs, one fresh node per target position,
+    //     every assignment of source positions to nodes (own targets included: all cycles of this size), outputs = all nodes
+    let gates = [SUB, NEG, COPY, SEVEN, DISCARD];
+    let kmax = if ctx.thorough() { 3 } else { 2 };
+    for k in 1..=kmax {
+        let ncombo = gates.len().pow(k as u32);
+        for combo in 0..ncombo {
+            let labels: Vec<u8> = (0..k).map(|i| gates[(combo / gates.len().pow(i as u32)) % gates.len()]).collect();
+            for ni in 0..=2usize {
+                if k == 3 && ni == 0 {
+                    continue;
+                }
+                let mut b = B::new(ni);
+                let mut pos = vec![];
+                for (e, &l) in labels.iter().enumerate() {
+                    let (a, _) = sig(l).unwrap();
+                    b.op(l, &vec![0; a]);
+                    for j in 0..a {
+                        pos.push((e, j));
+                    }
+                }
+                let n = b.m.w.len();
+                if n == 0 && !pos.is_empty() {
+                    continue;
+                }
+                b.m.t = (0..n).collect();
+                let total = n.max(1).pow(pos.len() as u32);
+                // k = 3: sample one assignment in 5 to stay inside the budget
+                let stride = if k == 3 { 5 } else { 1 };
+                let mut code = if k == 3 { ctx.rng.below(stride) } else { 0 };
+                while code < total {
+                    let mut m = b.m.clone();
+                    let mut q = code;
+                    for &(e, j) in &pos {
+                        m.src[e][j] = q % n;
+                        q /= n;
+                    }
+                    let inputs: Vec<T> = [5, 3][..ni].to_vec();
+                    let perm = (shuffle(&mut ctx.rng, n), shuffle(&mut ctx.rng, k));
+                    case(ctx, &m, &inputs, Some(perm));
+                    code += stride;
+                }
+            }
+        }
+    }
+
+    // (c) random
+    let nr = ctx.budget(30000, 900000);
+    for i in 0..nr {
+        let m = if i % 5 == 0 { random_circuit(&mut ctx.rng, 4, 14) } else { random_circuit(&mut ctx.rng, 3, 6) };
+        match i % 6 {
+            0 | 1 | 2 => case_scrambled(ctx, &m, 2),
+            3 => {
+                // cyclic by rewiring (still single writer)
+                if let Some(c) = make_cyclic(&mut ctx.rng, &m) {
+                    case_scrambled(ctx, &c, 1);
+                } else {
+                    case_scrambled(ctx, &m, 1);
+                }
+            }
+            4 => {
+                let c = add_detached_cycle(&mut ctx.rng, &m);
+                case_scrambled(ctx, &c, 1);
+                case_orders(ctx, &m);
+            }
+            _ => {
+                let (pn, pe) = (shuffle(&mut ctx.rng, m.w.len()), shuffle(&mut ctx.rng, m.x.len()));
+                case_orders(ctx, &renumber(&m, &pn, &pe));
+            }
+        }
+    }
+    // arbitrary conforming diagrams (many writers per node allowed): result iff acyclic
+    let nc = ctx.budget(10000, 300000);
+    for i in 0..nc {
+        let m = if i % 3 == 0 { random_conforming(&mut ctx.rng, 8, 6) } else { random_conforming(&mut ctx.rng, 4, 3) };
+        case_scrambled(ctx, &m, 1);
+    }
+    let st: Vec<usize> = STATS.iter().map(|a| a.load(Ordering::Relaxed)).collect();
+    ctx.notes.push(format!(
+        "eval cases: {} cyclic (refusal clause), {} acyclic single-writer (value clauses; {} of them with an output position depending on a never-written node, excluded position-wise), {} acyclic many-writer (result-iff-acyclic only)",
+        st[0], st[1], st[3], st[2]
+    ));
+    ctx.notes.push(
+        "rule: test signature of 18 gates over i64 (wrapping): ADD SUB MUL NEG COPY DISCARD ONE SEVEN AND OR NOT XOR DIVMOD(2->2) MUX(3->1) NOP(0->0) LT SPLIT3(1->3) IMPLIES. \
+         (1) corner circuits (wiring only, x^2, 1+1, x - NEG^d(y) for d up to 64 in both argument positions, one node read by five gates and output three times, crosswise use of DIVMOD outputs, zero-arity/zero-coarity gates, 40-wide layer + SUB reduction tree, unread input / unwritten node) as written, under 4 scrambled numberings x input vectors, under caller-chosen orders (eval_order), and with a detached cycle added; \
+         corner cyclic diagrams (self-dependence on/off the output cone, 2- and 3-cycles, head->cycle->tail, cycle feeding only DISCARD, 40-chain with a back reference); all 720 numberings (thorough; every 7th in quick) of one 3-gate diagram; \
+         (2) exhaustive: k<=2 gates (thorough: k=3, every 5th assignment) from {SUB,NEG,COPY,SEVEN,DISCARD}, 0..2 inputs, every assignment of source positions to nodes (includes every cycle of that size), outputs = all nodes, each under a random renumbering; \
+         (3) random: single-writer circuits up to 4 inputs/14 gates (uniform / deep / shared-early source choice, repeated source nodes, an unwritten node 1/6) with scrambled base numbering + second renumbering + 2 input vectors (values in -9..9, 0, +-1, +-1000, i64 extremes), cyclic variants by rewiring a source to a downstream target, detached cycles, caller-chosen orders; arbitrary conforming diagrams (many writers) for 'result iff acyclic'. \
+         non-trivial = at least 2 hyperedges and at least one dependency. output positions that depend on a never-written node are excluded from value comparison (not fixed by the statement)."
+            .into(),
+    );
+}
